@@ -337,3 +337,461 @@ theorem appLoop_spec (l : List (Option α)) : ∀ (d : List (Nat × Nat)) (lo r 
       have h1 := lc_mono l hrb
       have h2 := lc_mono l hlo
       omega
+
+/-! ## D. `_add_dead` -/
+
+theorem takeWhile_split {β : Type} (p : β → Bool) : ∀ (l : List β),
+    ∃ P Q, l = P ++ Q ∧ l.takeWhile p = P ∧ (∀ x ∈ P, p x = true) ∧ (∀ q Q', Q = q :: Q' → p q = false)
+  | [] => ⟨[], [], rfl, rfl, by simp, by simp⟩
+  | a :: l => by
+    by_cases ha : p a = true
+    · obtain ⟨P, Q, h1, h2, h3, h4⟩ := takeWhile_split p l
+      refine ⟨a :: P, Q, by simp [h1], by simp [List.takeWhile_cons, ha, h2], ?_, h4⟩
+      intro x hx; rcases List.mem_cons.1 hx with h | h
+      · exact h ▸ ha
+      · exact h3 x h
+    · refine ⟨[], a :: l, rfl, by simp [List.takeWhile_cons, ha], by simp, ?_⟩
+      intro q Q' h; cases h; simpa using ha
+
+theorem chain_raise_lo : ∀ (d : List (Nat × Nat)) (lo lo' hi : Nat), Chain lo d hi → lo' ≤ hi →
+    (∀ q Q', d = q :: Q' → lo' ≤ q.1) → Chain lo' d hi
+  | [], lo, lo', hi, hc, h, _ => h
+  | (a, b) :: ds, lo, lo', hi, hc, h, hq => ⟨hq (a, b) ds rfl, hc.2.1, hc.2.2⟩
+
+theorem chain_mem : ∀ (d : List (Nat × Nat)) (lo hi : Nat) (p : Nat × Nat), Chain lo d hi → p ∈ d →
+    lo ≤ p.1 ∧ p.1 < p.2 ∧ p.2 ≤ hi
+  | [], _, _, _, _, h => by simp at h
+  | (a, b) :: ds, lo, hi, p, hc, h => by
+    have hb := chain_le ds b hi hc.2.2
+    rcases List.mem_cons.1 h with h | h
+    · subst h; exact ⟨hc.1, hc.2.1, hb⟩
+    · have := chain_mem ds b hi p hc.2.2 h
+      have := hc.1; have := hc.2.1; omega
+
+theorem insertIdx_append_length {β : Type} (P Q : List β) (c : β) :
+    (P ++ Q).insertIdx P.length c = P ++ c :: Q := by
+  induction P with
+  | nil => simp
+  | cons a P ih => simp [List.insertIdx_succ_cons, ih]
+
+theorem deadAt_cons_new (d : List (Nat × Nat)) (x j : Nat) :
+    DeadAt ((x, x + 1) :: d) j ↔ (DeadAt d j ∨ j = x) := by
+  rw [deadAt_cons]
+  have e : ((x, x + 1).1 ≤ j ∧ j < (x, x + 1).2) ↔ j = x := by simp; omega
+  rw [e]; exact or_comm
+
+theorem deadAt_insert_new (P Q : List (Nat × Nat)) (x j : Nat) :
+    DeadAt (P ++ (x, x + 1) :: Q) j ↔ (DeadAt (P ++ Q) j ∨ j = x) := by
+  simp only [deadAt_append, deadAt_cons_new]
+  grind
+
+theorem deadAt_extend (P Q : List (Nat × Nat)) (a x j : Nat) (h : a ≤ x) :
+    DeadAt (P ++ (a, x + 1) :: Q) j ↔ (DeadAt (P ++ (a, x) :: Q) j ∨ j = x) := by
+  simp only [deadAt_append, deadAt_cons]
+  have e : (a ≤ j ∧ j < x + 1) ↔ ((a ≤ j ∧ j < x) ∨ j = x) := by omega
+  simp only [e]
+  grind
+
+/-- `_add_dead(x)` for a live slot `x`: the chain stays a chain and covers exactly one more position -/
+theorem addDead_spec (d : List (Nat × Nat)) (x len : Nat) (hc : Chain 0 d len) (hx : x < len)
+    (hnd : ¬ DeadAt d x) :
+    Chain 0 (addDead d x) len ∧ ∀ j, DeadAt (addDead d x) j ↔ (DeadAt d j ∨ j = x) := by
+  obtain ⟨P, Q, hd, hP, hPall, hQ⟩ := takeWhile_split (lexLt (x, x + 1)) d
+  have hPlt : ∀ p ∈ P, p.1 < p.2 ∧ p.2 ≤ x := by
+    intro p hp
+    have h1 := hPall p hp
+    have hmem : p ∈ d := by rw [hd]; exact List.mem_append_left _ hp
+    have hcp := chain_mem d 0 len p hc hmem
+    have hnd' : ¬ (p.1 ≤ x ∧ x < p.2) := fun h => hnd ⟨p, hmem, h⟩
+    simp [lexLt] at h1
+    omega
+  have hQgt : ∀ q Q', Q = q :: Q' → x < q.1 := by
+    intro q Q' h
+    have h1 := hQ q Q' h
+    have hmem : q ∈ d := by rw [hd, h]; simp
+    have hcp := chain_mem d 0 len q hc hmem
+    have hnd' : ¬ (q.1 ≤ x ∧ x < q.2) := fun h => hnd ⟨q, hmem, h⟩
+    simp [lexLt] at h1
+    omega
+  have hi : bisectLeft d (x, x + 1) = P.length := by simp [bisectLeft, hP]
+  rcases List.eq_nil_or_concat P with hPn | ⟨P', p, hPc⟩
+  · -- nothing below the candidate: the predecessor index wraps around to the last interval
+    subst hPn
+    simp only [List.nil_append] at hd
+    subst hd
+    cases d with
+    | nil => simp [addDead, Chain]; exact ⟨by omega, fun j => by omega⟩
+    | cons q Q' =>
+      have hq := hQgt q Q' rfl
+      rcases List.eq_nil_or_concat Q' with hQn | ⟨Q'', z, hQc⟩
+      · subst hQn
+        obtain ⟨q1, q2⟩ := q
+        simp only [Chain] at hc
+        simp at hq
+        simp only [addDead, hi]
+        simp
+        split
+        · simp [Chain]; exact ⟨by omega, fun j => by omega⟩
+        · split
+          · omega
+          · simp [Chain]; exact ⟨by omega, fun j => by omega⟩
+      · rw [List.concat_eq_append] at hQc
+        subst hQc
+        obtain ⟨q1, q2⟩ := q
+        obtain ⟨z1, z2⟩ := z
+        have hcq : Chain q2 (Q'' ++ [(z1, z2)]) len := hc.2.2
+        have hz' := chain_mem _ q2 len (z1, z2) hcq (by simp)
+        have hq12 : q1 < q2 := hc.2.1
+        simp at hq hz'
+        have hget : (((q1, q2) :: (Q'' ++ [(z1, z2)])))[((q1, q2) :: (Q'' ++ [(z1, z2)])).length - 1]? = some (z1, z2) := by
+          simp
+        have c1 : ¬ (x ≤ z1 ∧ z1 ≤ x + 1) := by omega
+        have c2 : ¬ (x ≤ z2 ∧ z2 ≤ x + 1) := by omega
+        have hval : addDead ((q1, q2) :: (Q'' ++ [(z1, z2)])) x = (x, x + 1) :: (q1, q2) :: (Q'' ++ [(z1, z2)]) := by
+          simp only [addDead, hi]
+          simp only [List.isEmpty_cons, List.length_nil, if_true, hget]
+          simp [c1, c2]
+        rw [hval]
+        refine ⟨⟨by omega, by omega, by omega, hq12, hcq⟩, fun j => deadAt_cons_new _ x j⟩
+  · -- the predecessor is the last interval below the candidate
+    rw [List.concat_eq_append] at hPc
+    subst hPc
+    obtain ⟨p1, p2⟩ := p
+    have hp := hPlt (p1, p2) (by simp)
+    simp at hp
+    have hne : d.isEmpty = false := by rw [hd]; simp
+    have hlen : (P' ++ [(p1, p2)]).length = P'.length + 1 := by simp
+    have hget : d[P'.length]? = some (p1, p2) := by rw [hd]; simp
+    have c1 : ¬ (x ≤ p1 ∧ p1 ≤ x + 1) := by omega
+    rw [hd, List.append_assoc, chain_append] at hc
+    obtain ⟨m, hcP, hcQ⟩ := hc
+    simp only [List.singleton_append, Chain] at hcQ
+    have hm := chain_le P' 0 m hcP
+    have hQlo : Chain (x + 1) Q len := by
+      refine chain_raise_lo Q p2 (x + 1) len hcQ.2.2 (by omega) ?_
+      intro q Q' h; have := hQgt q Q' h; omega
+    by_cases c2 : x ≤ p2 ∧ p2 ≤ x + 1
+    · have hp2 : p2 = x := by omega
+      have hval : addDead d x = P' ++ (p1, x + 1) :: Q := by
+        simp only [addDead, hi, hne, hlen]
+        simp only [Bool.false_eq_true, if_false, Nat.add_one_ne_zero, Nat.add_sub_cancel, hget, c1, c2, if_true]
+        rw [hd]; simp
+      rw [hval]
+      constructor
+      · rw [chain_append]
+        exact ⟨m, hcP, hcQ.1, by omega, hQlo⟩
+      · intro j
+        rw [deadAt_extend P' Q p1 x j (by omega), hd, ← hp2]; simp
+    · have hval : addDead d x = (P' ++ [(p1, p2)]) ++ (x, x + 1) :: Q := by
+        simp only [addDead, hi, hne, hlen]
+        simp only [Bool.false_eq_true, if_false, Nat.add_one_ne_zero, Nat.add_sub_cancel, hget, c1, c2]
+        rw [hd, ← hlen]; exact insertIdx_append_length _ _ _
+      rw [hval]
+      constructor
+      · rw [List.append_assoc, chain_append]
+        exact ⟨m, hcP, hcQ.1, hcQ.2.1, by omega, by omega, hQlo⟩
+      · intro j
+        rw [deadAt_insert_new, hd]
+
+
+/-! ## E. the representation invariant -/
+
+/-- what holds between the three structures at every point (also between `_add_dead` and `_cull`) -/
+structure InvC (s : ISet α) : Prop where
+  nodup : (live s.items).Nodup
+  perm : (IMap.keys s.idx).Perm (live s.items)
+  look : ∀ x i, IMap.lookup s.idx x = some i → s.items[i]? = some (some x)
+  chain : Chain 0 s.dead s.items.length
+  tombs : Tombs s.items s.dead 0
+
+/-- the invariant of the public states: additionally the last slot is never a tombstone -/
+structure Inv (s : ISet α) : Prop extends InvC s where
+  lastLive : s.items.getLast? ≠ some none
+
+theorem getElem?_lt {β : Type} {l : List β} {i : Nat} {v : β} (h : l[i]? = some v) : i < l.length := by
+  rcases Nat.lt_or_ge i l.length with h' | h'
+  · exact h'
+  · rw [List.getElem?_eq_none h'] at h; cases h
+
+/-- two live slots holding the same item are the same slot -/
+theorem live_slot_inj (l : List (Option α)) (hn : (live l).Nodup) (i j : Nat) (x : α)
+    (hi : l[i]? = some (some x)) (hj : l[j]? = some (some x)) : i = j := by
+  have h1 := live_getElem_lc l i x hi
+  have h2 := live_getElem_lc l j x hj
+  have hlt : lc l i < (live l).length := getElem?_lt h1
+  have heq : lc l i = lc l j := (List.getElem?_inj hlt hn).1 (h1.trans h2.symm)
+  have key : ∀ a b : Nat, a < b → l[a]? = some (some x) → lc l a < lc l b := by
+    intro a b hab ha
+    have hal := getElem?_lt ha
+    have := lc_succ l a hal
+    rw [List.getElem?_eq_getElem hal] at ha
+    have hne : l[a] ≠ none := by intro e; rw [e] at ha; cases ha
+    simp [hne] at this
+    have := (lc_mono l (show a + 1 ≤ b by omega)).1
+    omega
+  rcases Nat.lt_trichotomy i j with h | h | h
+  · have := key i j h hi; omega
+  · exact h
+  · have := key j i h hj; omega
+
+namespace InvC
+variable {s : ISet α}
+
+theorem keys_nodup (h : InvC s) : (IMap.keys s.idx).Nodup := (h.perm.nodup_iff).2 h.nodup
+
+theorem len_eq (h : InvC s) : s.len = s.toList.length := by
+  unfold ISet.len ISet.toList
+  rw [← IMap.length_keys, h.perm.length_eq]
+
+theorem contains_iff (h : InvC s) (x : α) : s.contains x = true ↔ x ∈ s.toList := by
+  unfold ISet.contains ISet.toList
+  rw [IMap.lookup_isSome_iff, h.perm.mem_iff]
+
+theorem lookup_of_slot (h : InvC s) (x : α) (i : Nat) (hi : s.items[i]? = some (some x)) :
+    IMap.lookup s.idx x = some i := by
+  have hx : x ∈ live s.items := by
+    rw [mem_live]; exact List.mem_of_getElem? hi
+  have hk : x ∈ IMap.keys s.idx := (h.perm.mem_iff).2 hx
+  rw [← IMap.lookup_isSome_iff] at hk
+  cases hl : IMap.lookup s.idx x with
+  | none => rw [hl] at hk; cases hk
+  | some j =>
+    have := h.look x j hl
+    rw [live_slot_inj s.items h.nodup i j x hi this]
+
+theorem not_dead_of_slot (h : InvC s) (x : α) (i : Nat) (hi : s.items[i]? = some (some x)) :
+    ¬ DeadAt s.dead i := by
+  intro hd
+  have := (h.tombs i (Nat.zero_le _) (getElem?_lt hi)).2 hd
+  rw [hi] at this; cases this
+
+end InvC
+
+theorem inv_empty : Inv (ISet.empty : ISet α) where
+  nodup := by simp [ISet.empty]
+  perm := by simp [ISet.empty]
+  look := by intro x i h; simp [ISet.empty, IMap.lookup] at h
+  chain := by simp [ISet.empty, Chain]
+  tombs := by intro j _ h; simp [ISet.empty] at h
+  lastLive := by simp [ISet.empty]
+
+/-- `add`: append when new -/
+theorem toList_add (s : ISet α) (h : InvC s) (x : α) :
+    (s.add x).toList = if x ∈ s.toList then s.toList else s.toList ++ [x] := by
+  unfold ISet.add
+  by_cases hc : s.contains x = true
+  · simp [hc, (h.contains_iff x).1 hc]
+  · have : x ∉ s.toList := fun hm => hc ((h.contains_iff x).2 hm)
+    unfold ISet.toList at this ⊢
+    simp [hc, this, live_append]
+
+theorem inv_add (s : ISet α) (h : Inv s) (x : α) : Inv (s.add x) := by
+  unfold ISet.add
+  by_cases hc : s.contains x = true
+  · simp [hc]; exact h
+  · have hx : x ∉ live s.items := fun hm => hc ((h.toInvC.contains_iff x).2 hm)
+    have hk : x ∉ IMap.keys s.idx := fun hm => hx ((h.perm.mem_iff).1 hm)
+    simp only [hc, Bool.false_eq_true, if_false]
+    refine { nodup := ?_, perm := ?_, look := ?_, chain := ?_, tombs := ?_, lastLive := ?_ }
+    · simp only [live_append, live_cons_some, live_nil]
+      rw [List.nodup_append]
+      refine ⟨h.nodup, by simp, ?_⟩
+      intro a ha b hb e; simp at hb; subst hb; subst e; exact hx ha
+    · simp only [live_append, live_cons_some, live_nil]
+      rw [IMap.keys_set_not_mem _ _ _ hk]
+      exact h.perm.append_right _
+    · intro y i hl
+      rw [IMap.lookup_set] at hl
+      by_cases hxy : x = y
+      · subst hxy; simp at hl; subst hl; simp
+      · simp [hxy] at hl
+        have := h.look y i hl
+        rw [List.getElem?_append_left (getElem?_lt this)]; exact this
+    · simp only [List.length_append, List.length_singleton]
+      exact chain_weaken_hi _ _ _ _ (Nat.le_succ _) h.chain
+    · intro j _ hj
+      simp only [List.length_append, List.length_singleton] at hj
+      by_cases hjl : j < s.items.length
+      · rw [List.getElem?_append_left hjl]; exact h.tombs j (Nat.zero_le _) hjl
+      · have hje : j = s.items.length := by omega
+        subst hje
+        simp
+        intro hd
+        have := chain_deadAt _ _ _ _ h.chain hd
+        omega
+    · simp [List.getLast?_append]
+
+
+/-! ### removing one item (before `_cull`) -/
+
+theorem split_at_slot (l : List (Option α)) (r : Nat) (v : Option α) (h : l[r]? = some v) :
+    l = l.take r ++ v :: l.drop (r + 1) := by
+  have hr := getElem?_lt h
+  rw [List.getElem?_eq_getElem hr] at h
+  have : l[r] = v := by simpa using h
+  rw [← this, ← List.drop_eq_getElem_cons hr, List.take_append_drop]
+
+theorem set_at_slot (l : List (Option α)) (r : Nat) (v w : Option α) (h : l[r]? = some v) :
+    l.set r w = l.take r ++ w :: l.drop (r + 1) := by
+  have hr := getElem?_lt h
+  conv => lhs; rw [split_at_slot l r v h]
+  rw [List.set_append_right _ _ (by simp; omega)]
+  simp [Nat.min_eq_left (Nat.le_of_lt hr)]
+
+theorem live_set_none (l : List (Option α)) (r : Nat) (x : α) (h : l[r]? = some (some x))
+    (hn : (live l).Nodup) : live (l.set r none) = (live l).erase x := by
+  have hs := split_at_slot l r _ h
+  rw [set_at_slot l r _ none h, live_append, live_cons_none]
+  have hl : live l = live (l.take r) ++ x :: live (l.drop (r + 1)) := by
+    conv => lhs; rw [hs]
+    rw [live_append, live_cons_some]
+  rw [hl] at hn ⊢
+  have hx : x ∉ live (l.take r) := by
+    intro hm
+    rw [List.nodup_append] at hn
+    exact hn.2.2 x hm x (by simp) rfl
+  rw [List.erase_append_right _ hx]
+  simp
+
+/-- tombstoning the live slot `r` (the body of `remove`/`pop(i)` up to `_cull`) -/
+theorem invC_kill (s : ISet α) (h : InvC s) (r : Nat) (x : α) (hr : s.items[r]? = some (some x)) :
+    InvC ⟨s.items.set r none, IMap.erase s.idx x, addDead s.dead r⟩ ∧
+      live (s.items.set r none) = (live s.items).erase x := by
+  have hlive := live_set_none s.items r x hr h.nodup
+  have hrl := getElem?_lt hr
+  have had := addDead_spec s.dead r s.items.length h.chain hrl (h.not_dead_of_slot x r hr)
+  refine ⟨{ nodup := ?_, perm := ?_, look := ?_, chain := ?_, tombs := ?_ }, hlive⟩
+  · show (live (s.items.set r none)).Nodup
+    rw [hlive]; exact h.nodup.erase x
+  · show (IMap.keys (IMap.erase s.idx x)).Perm (live (s.items.set r none))
+    rw [hlive, IMap.keys_erase]; exact h.perm.erase x
+  · intro y j hl
+    show (s.items.set r none)[j]? = some (some y)
+    have hyx : x ≠ y := by
+      intro e; subst e
+      rw [IMap.lookup_erase_self _ _ h.keys_nodup] at hl; cases hl
+    rw [IMap.lookup_erase_ne _ _ _ hyx] at hl
+    have hj := h.look y j hl
+    have hjr : r ≠ j := by
+      intro e; subst e; rw [hr] at hj; simp at hj; exact hyx hj
+    rw [List.getElem?_set]; simp [hjr]; exact hj
+  · show Chain 0 (addDead s.dead r) (s.items.set r none).length
+    rw [List.length_set]; exact had.1
+  · intro j _ hj
+    show (s.items.set r none)[j]? = some none ↔ DeadAt (addDead s.dead r) j
+    rw [List.length_set] at hj
+    rw [had.2 j, List.getElem?_set]
+    by_cases hjr : r = j
+    · subst hjr; simp [hrl]
+    · simp only [hjr, if_false]
+      rw [h.tombs j (Nat.zero_le _) hj]
+      constructor
+      · exact Or.inl
+      · rintro (h' | h')
+        · exact h'
+        · exact absurd h'.symm hjr
+
+
+/-! ### rebuilding the dict (`_compact`, `sort`, `reverse`) -/
+
+theorem lookup_assignIdx : ∀ (l : List α) (m : IMap α) (k : Nat) (x : α), l.Nodup →
+    IMap.lookup (assignIdx m l k) x = if x ∈ l then some (k + l.idxOf x) else IMap.lookup m x
+  | [], m, k, x, _ => by simp [assignIdx]
+  | y :: ys, m, k, x, hn => by
+    rw [List.nodup_cons] at hn
+    simp only [assignIdx]
+    rw [lookup_assignIdx ys (IMap.set m y k) (k + 1) x hn.2, IMap.lookup_set]
+    by_cases hxy : y = x
+    · subst hxy; simp [hn.1, List.idxOf_cons]
+    · have hxy' : ¬ x = y := fun e => hxy e.symm
+      by_cases hx : x ∈ ys
+      · have hb : (y == x) = false := by simp [hxy]
+        simp [hx, hxy, List.idxOf_cons, hb]; omega
+      · simp [hx, hxy, hxy']
+
+theorem keys_assignIdx : ∀ (l : List α) (m : IMap α) (k : Nat), (∀ x ∈ l, x ∈ IMap.keys m) →
+    IMap.keys (assignIdx m l k) = IMap.keys m
+  | [], m, k, _ => by simp [assignIdx]
+  | y :: ys, m, k, h => by
+    simp only [assignIdx]
+    have hy := h y (by simp)
+    rw [keys_assignIdx ys _ (k + 1) (by
+      intro x hx; rw [IMap.keys_set_mem _ _ _ hy]; exact h x (by simp [hx])),
+      IMap.keys_set_mem _ _ _ hy]
+
+/-- any duplicate-free re-listing of the live items, with the dict re-pointed, is a valid state -/
+theorem inv_rebuild (s : ISet α) (h : InvC s) (l : List α) (hp : l.Perm (live s.items)) :
+    Inv ⟨l.map some, assignIdx s.idx l 0, []⟩ := by
+  have hln : l.Nodup := (hp.nodup_iff).2 h.nodup
+  have hkeys : IMap.keys (assignIdx s.idx l 0) = IMap.keys s.idx :=
+    keys_assignIdx l s.idx 0 (fun x hx => (h.perm.mem_iff).2 ((hp.mem_iff).1 hx))
+  refine { nodup := ?_, perm := ?_, look := ?_, chain := ?_, tombs := ?_, lastLive := ?_ }
+  · show (live (l.map some)).Nodup
+    rw [live_map_some]; exact hln
+  · show (IMap.keys (assignIdx s.idx l 0)).Perm (live (l.map some))
+    rw [live_map_some, hkeys]; exact h.perm.trans hp.symm
+  · intro x i hl
+    show (l.map some)[i]? = some (some x)
+    rw [lookup_assignIdx l s.idx 0 x hln] at hl
+    by_cases hx : x ∈ l
+    · simp [hx] at hl
+      subst hl
+      have hlt := List.idxOf_lt_length_of_mem hx
+      rw [List.getElem?_map, List.getElem?_eq_getElem hlt, List.getElem_idxOf hlt]; rfl
+    · simp [hx] at hl
+      have : x ∈ IMap.keys s.idx := by
+        rw [← IMap.lookup_isSome_iff, hl]; rfl
+      exact absurd ((hp.mem_iff).2 ((h.perm.mem_iff).1 this)) hx
+  · show Chain 0 [] _
+    simp [Chain]
+  · intro j _ hj
+    show (l.map some)[j]? = some none ↔ DeadAt [] j
+    simp [List.getElem?_map]
+  · show (l.map some).getLast? ≠ some none
+    rw [List.getLast?_map]; cases l.getLast? <;> simp
+
+/-- a tombstone means fewer live items than slots -/
+theorem live_length_lt (l : List (Option α)) (a : Nat) (h : l[a]? = some none) : (live l).length < l.length := by
+  have ha := getElem?_lt h
+  have h1 := lc_succ l a ha
+  rw [List.getElem?_eq_getElem ha] at h
+  have : l[a] = none := by simpa using h
+  simp [this] at h1
+  have h2 := lc_mono l (show a + 1 ≤ l.length by omega)
+  have h3 := lc_mono l (Nat.zero_le a)
+  rw [lc_length] at h2
+  simp at h3
+  omega
+
+theorem toList_compact (s : ISet α) (h : InvC s) : Inv (compact s) ∧ (compact s).toList = s.toList := by
+  unfold compact
+  cases hd : s.dead with
+  | nil =>
+    simp only [List.isEmpty_nil, if_true]
+    refine ⟨{ toInvC := h, lastLive := ?_ }, trivial⟩
+    intro hl
+    rw [List.getLast?_eq_getElem?] at hl
+    have hlt := getElem?_lt hl
+    have := (h.tombs _ (Nat.zero_le _) hlt).1 hl
+    rw [hd] at this; simp at this
+  | cons p ds =>
+    obtain ⟨a, b⟩ := p
+    simp only [List.isEmpty_cons, Bool.false_eq_true, if_false]
+    have hc := h.chain
+    rw [hd] at hc
+    have hb := chain_le ds b _ hc.2.2
+    have hdead : s.items[a]? = some none :=
+      (h.tombs a (Nat.zero_le _) (by have := hc.2.1; omega)).2 (by rw [hd, deadAt_cons]; left; exact ⟨Nat.le_refl _, hc.2.1⟩)
+    have hlt := live_length_lt s.items a hdead
+    have hlen : s.idx.length = (live s.items).length := by
+      rw [← IMap.length_keys, h.perm.length_eq]
+    have hdc : s.items.length - s.idx.length ≠ 0 := by omega
+    have hitems : (List.map some (live s.items) ++ List.drop (live s.items).length s.items).take
+        ((List.map some (live s.items) ++ List.drop (live s.items).length s.items).length -
+          (s.items.length - s.idx.length)) = List.map some (live s.items) := by
+      apply List.take_left'
+      simp; omega
+    simp only [hdc, if_false, hitems]
+    have := inv_rebuild s h (live s.items) (List.Perm.refl _)
+    exact ⟨this, by simp [ISet.toList, live_map_some]⟩
+
